@@ -49,14 +49,6 @@ Definition found_id (f : found rval) : option nat :=
 
 (** ** what the implementation accepted, as an index content *)
 
-Fixpoint upsert (d : db rval) (p : pat) (ks : list str) (v : rval) (bt : bool) : db rval :=
-  match d with
-  | [] => [(p, {| vals := [v]; flag := bt; keys := ks |})]
-  | (q, n) :: r =>
-    if pat_eqb p q then (q, {| vals := vals n ++ [v]; flag := bt; keys := ks |}) :: r
-    else (q, n) :: upsert r p ks v bt
-  end.
-
 Fixpoint spec_db_from (d : db rval) (l : list (addop rval)) : option (db rval) :=
   match l with
   | [] => Some d
@@ -69,8 +61,6 @@ Fixpoint spec_db_from (d : db rval) (l : list (addop rval)) : option (db rval) :
 
 (** ** the compressed tree (Radix/Tree.v) next to the machine: same Adds, its shape
     invariant [wfb] and its abstraction [abs] must be the machine's index *)
-
-Definition rval_eqb (a b : rval) : bool := Nat.eqb (fst a) (fst b) && Nat.eqb (snd a) (snd b).
 
 Definition node_eqb (a b : node rval) : bool :=
   list_eqb rval_eqb (vals a) (vals b) && Bool.eqb (flag a) (flag b) && keys_eqb (keys a) (keys b).
@@ -100,16 +90,17 @@ Definition tree_ok (t : tree rval) (d : db rval) : bool := wfb t && db_equiv (ab
 
 (** ** per-lookup verdicts, combined *)
 
-Record lv := { lv_corr : bool; lv_prop : bool; lv_g1 : bool; lv_g2 : bool }.
+Record lv := { lv_corr : bool; lv_prop : bool; lv_g1 : bool; lv_g2 : bool; lv_g3 : bool }.
 
 Definition plain (x : lv) : bool := lv_corr x && lv_prop x.
 
 Definition combine (acceptance_same : bool) (l : list lv) : verdict :=
-  let covered := forallb (fun x => plain x || lv_g1 x || lv_g2 x) l in
+  let covered := forallb (fun x => plain x || lv_g1 x || lv_g2 x || lv_g3 x) l in
   {| v_corr := forallb lv_corr l;
      v_prop := forallb lv_prop l;
      v_guards := guards [(1%Z, covered && existsb (fun x => lv_g1 x && negb (plain x)) l);
                          (2%Z, covered && existsb (fun x => lv_g2 x && negb (plain x)) l);
+                         (3%Z, covered && existsb (fun x => lv_g3 x && negb (plain x)) l);
                          (9%Z, negb acceptance_same)] |}.
 
 (** ** stream "tree" *)
@@ -144,13 +135,14 @@ Definition check_lk (impl_fixed : bool) (sd : option (db rval)) (t : tree rval) 
   let path := s2l (l_path l) in
   let m := m_cap (l_ok l) (l_modes l) (s2l (l_needle l)) in
   match sd with
-  | None => {| lv_corr := false; lv_prop := false; lv_g1 := false; lv_g2 := false |}
+  | None => {| lv_corr := false; lv_prop := false; lv_g1 := false; lv_g2 := false; lv_g3 := false |}
   | Some d =>
     {| lv_corr := onat_eqb (found_id (find_in (negb impl_fixed) d path m)) (l_obs l)
                   && onat_eqb (found_id (tfind impl_fixed t path m)) (l_obs l);
        lv_prop := onat_eqb (found_id (spec_lookup (respec (vflag_of tbl) d) path m)) (l_obs l);
        lv_g1 := negb impl_fixed && guard_F1 d path m;
-       lv_g2 := guard_F2 (vflag_of tbl) d path m |}
+       lv_g2 := guard_F2 (vflag_of tbl) d path m;
+       lv_g3 := false |}
   end.
 
 Definition check_tree (impl_fixed : bool) (c : case) : verdict :=
@@ -200,13 +192,14 @@ Definition check_rlk (impl_fixed : bool) (dflt : bool) (sd : option (db rval)) (
   let path := s2l (rl_path l) in
   let m := m_cap (rl_ok l) (rl_modes l) (s2l (rl_needle l)) in
   match sd with
-  | None => {| lv_corr := false; lv_prop := false; lv_g1 := false; lv_g2 := false |}
+  | None => {| lv_corr := false; lv_prop := false; lv_g1 := false; lv_g2 := false; lv_g3 := false |}
   | Some d =>
     {| lv_corr := outcome_eqb (find_rule (negb impl_fixed) d dflt path m) (rl_obs l)
                   && outcome_eqb (outcome_of dflt (tfind impl_fixed t path m)) (rl_obs l);
        lv_prop := outcome_eqb (spec_find_rule (respec (vflag_of tbl) d) dflt path m) (rl_obs l);
        lv_g1 := negb impl_fixed && guard_F1 d path m;
-       lv_g2 := guard_F2 (vflag_of tbl) d path m |}
+       lv_g2 := guard_F2 (vflag_of tbl) d path m;
+       lv_g3 := false |}
   end.
 
 Definition check_repo (impl_fixed : bool) (c : rcase) : verdict :=
@@ -219,6 +212,29 @@ Definition check_repo (impl_fixed : bool) (c : rcase) : verdict :=
   let shape_same := match sd with Some d => tree_ok t d | None => false end in
   combine (sets_same && tsets_same && shape_same) (map (check_rlk impl_fixed (rc_default c) sd t tbl) (rc_lks c)).
 
+(** ** stream "history": create / update / delete of rule sets through the real rule-set
+    processor, then lookups.  Correspondence: the history model of C02/Model.v (the code as it
+    is).  Property: the specification on a FRESH load of the rule sets in force. *)
+
+Record hcase := { hc_default : bool; hc_ops : list hop; hc_lks : list rlk }.
+
+Definition final_flags (ops : list hop) : list (nat * bool) :=
+  flat_map (fun x => map (fun r => (r_id r, r_bt r)) (snd x)) (final_sets ops).
+
+Definition check_hlk (dflt : bool) (hd fd : db rval) (tbl : list (nat * bool)) (l : rlk) : lv :=
+  let path := s2l (rl_path l) in
+  let m := m_cap (rl_ok l) (rl_modes l) (s2l (rl_needle l)) in
+  {| lv_corr := outcome_eqb (find_rule false hd dflt path m) (rl_obs l);
+     lv_prop := outcome_eqb (spec_find_rule (respec (vflag_of tbl) fd) dflt path m) (rl_obs l);
+     lv_g1 := false;
+     lv_g2 := guard_F2 (vflag_of tbl) hd path m;
+     lv_g3 := guard_F3 hd fd path |}.
+
+Definition check_hist (c : hcase) : verdict :=
+  let hd := hist_db (hc_ops c) in
+  let fd := fresh_db (hc_ops c) in
+  combine true (map (check_hlk (hc_default c) hd fd (final_flags (hc_ops c))) (hc_lks c)).
+
 (** ** short constructors for the generated case files *)
 Definition ad e i s b o := {| a_expr := e; a_id := i; a_src := s; a_bt := b; a_obs := o |}.
 Definition lu p ok ms nd o := {| l_path := p; l_ok := ok; l_modes := ms; l_needle := nd; l_obs := o |}.
@@ -227,3 +243,5 @@ Definition rd i b (routes : list string) := {| r_id := i; r_bt := b; r_routes :=
 Definition rs s r o := {| s_src := s; s_rules := r; s_obs := o |}.
 Definition rl p ok ms nd o := {| rl_path := p; rl_ok := ok; rl_modes := ms; rl_needle := nd; rl_obs := o |}.
 Definition rc d s l := {| rc_default := d; rc_sets := s; rc_lks := l |}.
+Definition hr r sm eq := {| h_rule := r; h_same := sm; h_equal := eq |}.
+Definition hc d o l := {| hc_default := d; hc_ops := o; hc_lks := l |}.
